@@ -105,6 +105,24 @@ static void body_query(const Sol& s, int t, Out& out, bool use_tls = true) {
   SU_vector::clear_mem_cache();
 }
 
+// ------------------------------------------------------------------ body E: every thread builds, evolves and queries its own solver
+struct NumSol : Sol {
+  NumSol(unsigned nx, unsigned dim) : Sol(nx, dim) { Set_CoherentRhoTerms(true); Set_rel_error(1e-9); Set_abs_error(1e-9); Set_h(1e-3); }
+  squids::SU_vector HI(unsigned ix, unsigned irho, double t) const override { std::vector<double> e(d); for (int j = 0; j < d; j++) e[j] = (0.3 * j + 0.1 * ix - 0.2 * irho) * (1 + 0.3 * t); SU_vector h = mkvec(d, ref::basis(d).proj(ref::diag(e))); h[1] = 0.25; return h; }
+};
+static void body_own_solver(int t, Out& out) {
+  int d = 2 + (t % 2);
+  { NumSol s(2, d); s.Set_xrange(0.5, 2.0, "lin");
+    for (unsigned ix = 0; ix < 2; ix++) for (unsigned ir = 0; ir < 2; ir++) s.setrho(ix, ir, scaled(probe(d, (ix + ir + t) % 3), 0.5));
+    s.Evolve(0.3); s.Evolve(0.2);
+    SU_vector O = mkvec(d, probe(d, 1));
+    for (unsigned ir = 0; ir < 2; ir++) { out.push_back(s.GetExpectationValue(O, ir, 1)); out.push_back(s.GetExpectationValueD(O, ir, 1.1)); SU_vector is = s.GetIntermediateState(ir, 0.9); put(out, is); }
+    out.push_back(s.Get_t());
+    NumSol moved(std::move(s)); moved.Evolve(0.1); out.push_back(moved.GetExpectationValue(O, 0, 0));
+  }
+  SU_vector::clear_mem_cache();
+}
+
 // ------------------------------------------------------------------ body D: thread exit
 static void body_exit(int t, Out& out) {
   std::vector<SU_vector> vs; for (int d = 2; d <= 6; d++) { vs.emplace_back((unsigned)d); vs.back()[1] = d + t; }
@@ -134,6 +152,9 @@ int main(int argc, char** argv) {
       std::vector<std::thread> th; for (int t = 0; t < n; t++) th.emplace_back([&, t] { body_query(*s, t, out[t]); }); for (auto& x : th) x.join();
       std::string why; count("evaluations"); if (!same(out, ref_, true, why)) violation("free-running:shared-solver:differs-from-sequential", J().i("threads", n).str("why", why).done()); g_shared_op = nullptr; }
     { std::vector<Out> out(n); std::vector<std::thread> th; for (int t = 0; t < n; t++) th.emplace_back([&, t] { body_exit(t, out[t]); }); for (auto& x : th) x.join(); count("evaluations"); }
+    { std::vector<Out> out(n); std::vector<std::thread> th; for (int t = 0; t < n; t++) th.emplace_back([&, t] { body_own_solver(t, out[t]); }); for (auto& x : th) x.join();
+      std::vector<Out> solo(n); for (int t = 0; t < n; t++) { std::thread x([&, t] { body_own_solver(t, solo[t]); }); x.join(); }
+      std::string why; count("evaluations"); if (!same(out, solo, true, why)) violation("free-running:own-solver:differs-from-solo", J().i("threads", n).str("why", why).done()); }
     distinct(ref::fnv(&rep, 4, n));
   }
   sample(J().str("pass", "free-running ThreadSanitizer pass over bodies own-vectors, hand-over ring, shared solver, thread exit").i("repetitions", reps).done());
@@ -150,8 +171,8 @@ int main(int argc, char** argv) {
   Args ar = parse(argc, argv); quiet_gsl(); install_crash_reporter();
   for (int d = 2; d <= 6; d++) ref::basis(d);
   bool th = ar.thorough();
-  std::vector<Scenario> scen = {{"own-vectors", 2, 2}, {"hand-over-ring", 2, 2}, {"shared-solver", 2, 2}, {"thread-exit", 2, 1}};
-  if (th) { scen = {{"own-vectors", 2, 3}, {"own-vectors", 3, 2}, {"hand-over-ring", 2, 4}, {"hand-over-ring", 3, 3}, {"shared-solver", 2, 3}, {"shared-solver", 3, 2}, {"thread-exit", 2, 2}, {"thread-exit", 3, 1}}; }
+  std::vector<Scenario> scen = {{"own-vectors", 2, 2}, {"hand-over-ring", 2, 2}, {"shared-solver", 2, 2}, {"thread-exit", 2, 1}, {"own-solver", 2, 1}};
+  if (th) { scen = {{"own-vectors", 2, 3}, {"own-vectors", 3, 2}, {"hand-over-ring", 2, 4}, {"hand-over-ring", 3, 3}, {"shared-solver", 2, 3}, {"shared-solver", 3, 2}, {"thread-exit", 2, 2}, {"thread-exit", 3, 1}, {"own-solver", 2, 2}, {"own-solver", 3, 1}}; }
   long sc_index = 0, total_exec = 0, total_points = 0;
   arena::A().hook = []() { sched::point(); };
   for (auto& sc : scen) {
@@ -164,6 +185,7 @@ int main(int argc, char** argv) {
       if (sc.name == "own-vectors") for (int t = 0; t < sc.n; t++) ex.spawn([t]() { body_own(t, g_out[t]); });
       else if (sc.name == "hand-over-ring") { delete g_ring; g_ring = new Ring(); g_ring->n = sc.n; for (int t = 0; t < sc.n; t++) g_ring->ch.emplace_back(new Chan()); for (int t = 0; t < sc.n; t++) ex.spawn([t]() { body_ring(*g_ring, t, g_out[t]); }); }
       else if (sc.name == "shared-solver") { g_solver = make_solver(3); static std::unique_ptr<SU_vector> shop; shop.reset(new SU_vector(mkvec(3, probe(3, 1)))); g_shared_op = shop.get(); g_shop_owner = &shop; g_expect_query.assign(sc.n, Out()); for (int t = 0; t < sc.n; t++) body_query(*g_solver, t, g_expect_query[t], false); for (int t = 0; t < sc.n; t++) ex.spawn([t]() { body_query(*g_solver, t, g_out[t]); }); }
+      else if (sc.name == "own-solver") { for (int t = 0; t < sc.n; t++) ex.spawn([t]() { body_own_solver(t, g_out[t]); }); }
       else { for (int t = 0; t < sc.n; t++) ex.spawn([t]() { body_exit(t, g_out[t]); }); }
       g_live_before_threads = A.live_blocks();
     };
